@@ -144,6 +144,22 @@ func ZZ_C17_results() {
 		b, ok2 := hsms.Parse(in)
 		rt.Assert(ok2, "results:second-decode-ok")
 		rt.Assert(rt.BytesEq(b.ToBytes(), in), "results:second-decode-unaffected")
+	case 3:
+		// a fill table shared by several calls (and goroutines) is only read
+		vals := map[string]interface{}{"...": 1, "va": int16(3), "vt": true, "lv": ast.NewBinaryNode(2)}
+		rt.Epoch(tmpl, full, vals)
+		r1 := tmpl.FillVariables(vals)
+		rt.Assert(rt.EpochEnd() == 0, "no-store-into-shared-memory")
+		rt.Assert(len(vals) == 4, "results:fill-table-not-consumed")
+		r2 := tmpl.FillVariables(vals)
+		rt.Assert(rt.StrEq(r2.String(), r1.String()), "results:second-fill-with-the-same-table")
+		rt.Assert(rt.StrsEq(r2.Variables(), r1.Variables()), "results:second-fill-variables")
+		rt.Concurrently(8, func() {
+			for it := 0; it < rt.Iterations(25); it++ {
+				r := tmpl.FillVariables(vals)
+				rt.Assert(rt.StrEq(r.String(), r1.String()), "concurrent-call-returns-its-own-result:string")
+			}
+		})
 	case 2:
 		v1 := tmpl.Variables()
 		want := append([]string{}, v1...)
